@@ -107,6 +107,39 @@ class DriverError(RuntimeError):
     pass
 
 
+DRIVER_SAMPLES: list[tuple[list[str], list[str]]] = []     # prefixes of driver batches, for the interpreter cross-check
+
+
+def crosscheck_interpreter(max_lines: int = 1500, timeout: float = 900.0) -> dict:
+    """Thorough tier: re-run a prefix of this run's driver batches through Lean's own evaluator
+    (`lake env lean --run Driver.lean`, no native code generation involved) and compare with what the compiled
+    executable answered.  Narrows the trust in the C back end / linker; the definitions themselves are kernel-checked."""
+    out = {"batches": 0, "lines": 0, "mismatches": []}
+    for lines, answers in DRIVER_SAMPLES[:6]:
+        ls, an = lines[:max_lines], answers[:max_lines]
+        try:
+            p = subprocess.run(["lake", "env", "lean", "--run", "Driver.lean"], cwd=LEAN, input="\n".join(ls) + "\n",
+                               capture_output=True, text=True, timeout=timeout)
+        except subprocess.TimeoutExpired:
+            out.setdefault("timeouts", 0)
+            out["timeouts"] += 1
+            continue
+        got = p.stdout.split("\n")
+        if got and got[-1] == "":
+            got.pop()
+        out["batches"] += 1
+        out["lines"] += len(ls)
+        if p.returncode != 0 or len(got) != len(ls):
+            out["mismatches"].append({"error": f"rc={p.returncode}, {len(got)} answers for {len(ls)} lines", "stderr": p.stderr[-300:]})
+            continue
+        for ln, a, b in zip(ls, an, got):
+            if a != b:
+                out["mismatches"].append({"line": ln[:300], "compiled": a[:300], "interpreted": b[:300]})
+                if len(out["mismatches"]) > 5:
+                    break
+    return out
+
+
 def run_driver(lines: list[str], timeout: float = 600.0) -> list[str]:
     """Feed operation lines to a fresh model driver process; one answer line per operation."""
     if not lines:
@@ -124,6 +157,8 @@ def run_driver(lines: list[str], timeout: float = 600.0) -> list[str]:
     if p.returncode != 0 or len(out) != len(lines):
         raise DriverError(f"driver rc={p.returncode}, {len(out)} answers for {len(lines)} lines; "
                           f"stderr={p.stderr[-500:]}")
+    if len(DRIVER_SAMPLES) < 6:
+        DRIVER_SAMPLES.append((lines[:3000], out[:3000]))
     return out
 
 
